@@ -11,9 +11,11 @@ CHECKS = [
              'literals and operator overloads, partial parameter dictionaries) on random tables are evaluated through '
              'get_value_c, get_value_and_derivatives, aggregated mode, the pure-Python get_value and BIOGEME.simulate of '
              'several formulas side by side, and compared row by row with an independent reference semantics that carries '
-             'forward error bounds (well-posedness filter). Exploration fits a property over unbounded programs x inputs.',
+             'forward error bounds (well-posedness filter). Constants include full-mantissa values, comparisons include exactly '
+             'representable operands 1e-9..1e-15 apart, and the same formula object is evaluated again after change_init_values. '
+             'Exploration fits a property over unbounded programs x inputs.',
         note='Trusts vlib/refsem.py (reference evaluator) and its error analysis; the compiled engine is a black box; '
-             'ill-posed cases (<20%) are counted and not judged; one engine-level defect is a listed known finding.',
+             'ill-posed cases (<20%) are counted and not judged; three engine-level defects are listed known findings.',
         technique='property-based testing (Hypothesis): generated expression DAGs vs independent reference evaluator, '
                   'differential Python-vs-engine and shared-vs-unshared metamorphic relation',
     ),
@@ -39,7 +41,8 @@ CHECKS = [
              'B x K bootstrap sample, active/inactive bounds, sample size != observations. Every figure of get_general_statistics, '
              'the three variance-covariance matrices, the Beta objects, get_estimated_parameters (both modes), '
              'get_correlation_results, the HTML/str/short summaries, compile_estimation_results (1-3 models x flag combinations) '
-             'and likelihood_ratio_test (both argument orders) is recomputed from its defining formula and compared cell by cell.',
+             'and likelihood_ratio_test (both argument orders) is recomputed from its defining formula and compared cell by cell; '
+             'compiled tables take objects and pickle files in any order with unreadable files at generated positions.',
         note='Trusted base: exact rational arithmetic (fractions.Fraction) for statistics, pseudo-inverse, sandwich and sample '
              'covariance; scipy.special.erfc / chdtri; a stub model exposing exactly the attributes RawResults.__init__ reads. '
              'Zero-variance sentinel conventions, equal-K likelihood-ratio tests, H=None and LaTeX/F12 output are not judged.',
@@ -51,7 +54,8 @@ CHECKS = [
              'native types, names whose sorted order differs from order of appearance), R in 2..24, are evaluated through '
              'get_value_c and BIOGEME.calculate_likelihood; recording wrappers show that slab k of the draw table is exactly '
              'what the generator of the k-th variable\'s declared type produced, the value is the arithmetic mean over draws '
-             'of the reference semantics, and non-zero seeds reproduce bit for bit. Integrate is compared with adaptive '
+             'of the reference semantics, non-zero seeds reproduce bit for bit, and on one BIOGEME object the likelihood equals '
+             'the sum of the simulated rows before and after simulate(). Integrate is compared with adaptive '
              'quadrature, Derive with reference automatic differentiation. Exploration over programs x inputs x configurations.',
         note='Recording is done by replacing catalogue entries inside the check process; integrands restricted to g(w) x normal '
              'density with moderate curvature (quadrature accuracy 1e-6); engine defects of shared pieces are listed known findings.',
@@ -61,7 +65,8 @@ CHECKS = [
         id='C11',
         text='Generated search over all 21 catalogue entries x sizes x seeds and over the quantile transform on '
              '(0,1) incl. extreme tails, judged against an independently coded radical inverse, stratum counting, '
-             'mirror/2u-1 relations under a common seed and scipy.special.ndtri (1e-13 rel/abs). Exploration is the '
+             'mirror/2u-1 relations under a common seed and scipy.special.ndtri (1e-13 rel/abs); Database.generate_draws with '
+             'type dictionaries listed in any order and generators of wrong shape. Exploration is the '
              'right level: the property quantifies over unbounded sizes and a continuum of uniforms.',
         note='Trusts scipy.special.ndtri/ndtr and numpy seeding; explores even draw counts up to 120, sample sizes up to 12.',
         technique='property-based testing (Hypothesis): reference-model + metamorphic oracles over generated sizes/seeds/uniforms',
@@ -75,7 +80,8 @@ CHECKS.append(dict(
          'the support, segmentations and nest structures with name dictionaries in arbitrary order. Every helper expression is '
          'built with the real library and evaluated by the compiled engine in a forked child, and compared with an independent '
          'closed form (math/numpy/scipy.stats); densities are integrated with scipy quad using the engine as integrand; '
-         'generated segmentation code is executed and compared with the expression (values and parameter attributes).',
+         'generated segmentation code is executed and compared with the expression (values and parameter attributes); '
+         'segmentations may be many-to-one, regression residuals reach hundreds of sigma.',
     note='Trusts math.expm1/log, scipy.stats and quad; closed forms for open ends and the shift-parameter naming are taken from '
          'the docstrings/unit tests; inputs restricted to the documented domains (increasing thresholds, sigma > 0, a < c < b, '
          'mu_m >= 1, disjoint nests, no subnormal literals). Seven defects found by this check were repaired (fix: commits).',
@@ -90,7 +96,8 @@ CHECKS.append(dict(
          'mu_m >= mu >= 1, object or legacy tuple syntax) are evaluated once per alternative for logit, nested, nested with scale, '
          'cross-nested (+scale) and MEV with user-supplied ln G_i; probabilities must lie in [0,1], sum to one, vanish for '
          'unavailable alternatives, be invariant under a common shift of the utilities, agree with independently coded '
-         'closed forms and with exp of the log version. Ordered logit/probit with 2-6 categories likewise.',
+         'closed forms and with exp of the log version; availabilities may be plain numbers incl. 0 and the same Python objects '
+         'may be handed to successive calls. Ordered logit/probit with 2-6 categories likewise.',
     note='Closed forms coded from the textbook definitions (biogeme convention alpha^(mu_m/mu)); tolerance 1e-9 (1e-7 ordered '
          'probit: engine normal CDF); utilities bounded to |V| <= 60.',
     technique='property-based testing (Hypothesis): validity predicates (range, sum, zero when unavailable), metamorphic shift invariance, reference closed forms',
@@ -103,7 +110,8 @@ CHECKS.append(dict(
          'written U, U\', U\'\': non-negativity, budget within what the stopping tolerances allow, equal marginal utility on '
          'consumed goods, no larger marginal utility at zero for the others, outside good consumed, objective not below the '
          'feasible projection of the brute-force solution; everything repeated after relabelling and reordering. Numeric utility, '
-         'symbolic utility (engine) and the report formula are compared three ways, likewise derivative and inverse.',
+         'symbolic utility (engine) and the report formula are compared three ways, likewise derivative and inverse. Histories: one '
+         'model object used on several samples and with new estimation results must behave like a fresh object each time.',
     note='Trusted: the utilities, derivatives and consumer problem of reports/mdcev/mdcev.tex, strict concavity on gamma > 0, '
          '0 < alpha < 1, epsilon column j belonging to index_to_key[j] (column order is undocumented and not asserted). '
          'Parameters are Beta or Numeric, labels non-negative integers; two defects found were repaired (fix: commits).',
@@ -120,7 +128,8 @@ CHECKS.append(dict(
          'and read back over up to three cycles: values == with the same base type. (3) HTML, LaTeX, F12 and printed reports are '
          'read back as tables / fixed columns: every parameter name and value is required. (4) Histories of up to 18 '
          'output-generating operations in a directory pre-seeded with colliding names: a sha256 snapshot of every earlier file '
-         'stays unchanged and every reported name is new.',
+         'stays unchanged and every reported name is new. (5) Histories of one Parameters object starting from hand-written '
+         'partial TOML files (set_value / dump_file / read_file): after every dump a fresh reader holds every value.',
     note='Trusts the stub model behind RawResults (attributes copied from a real estimation), pickle/numpy determinism within one '
          'process, tomlkit parsing; value agreement to 3 significant digits (1e-11 relative in F12). NaN configuration values and '
          'directories/symlinks as colliding names are outside the domain. Reports of Hessian-free results are a listed known finding.',
@@ -135,7 +144,8 @@ CHECKS.append(dict(
          'configuration once; after configure_catalogs every catalog shows the member of its controller and the engine value '
          '(and get_value / database-free value) equals the hand-substituted catalog-free formula bit for bit and the reference '
          'within bounds, across histories on one formula object; every operator of prepare_operators stays inside the space, makes '
-         'its documented move, and increase/decrease are inverse.',
+         'its documented move, and increase/decrease are inverse; catalogs may hold bare Beta / Variable / Numeric members, and '
+         'change_init_values / fix_betas / renaming through the selected member act as on the hand-written formula.',
     note='Trusts vlib/refsem and the documented form of segmented / alt-specific parameters; names free of ; and : and unique; at '
          'most 100 configurations where the enumerated set is used; betas given for free parameters only. Two defects found '
          'were repaired (fix: commits).',
@@ -149,7 +159,8 @@ CHECKS.append(dict(
          '(chosen first, no duplicates, exactly k members per stratum, own attributes, ln(k/n), n/k), combined variables are '
          'recomputed by the reference semantics, and the log likelihoods of GenerateModel.get_logit / get_nested_logit / '
          'get_cross_nested_logit are compared at 1e-9 with independently coded models on the sampled sets and, when every stratum '
-         'is sampled completely, on the full choice set; marginal inclusion frequencies are tested; documented refusals are checked.',
+         'is sampled completely, on the full choice set; marginal inclusion frequencies are tested; documented refusals are checked; '
+         'the tables carry arbitrary pandas indices (permuted, gapped, duplicated, strings) and the oracle works by position.',
     note='Trusts vlib/refsem, numpy log-sum-exp references, numpy seeding and scipy.stats.binom (tail 1e-12); names outside the '
          'collision domain of the <column>_<position> flattening, ids < 2^24, no 99999/NaN values; nested/CNL with a second sample '
          'covering the nests. One defect found was repaired (fix: commit).',
@@ -165,7 +176,8 @@ CHECKS.append(dict(
          'new columns from the reference expression semantics, scaling and extraction exact, folds as a partition with '
          'complements and unbroken groups, bootstrap samples by membership, the flat frame against a re-implementation of the '
          'documented layout. Most operations see a row index with gaps; flatten_database / count_number_of_groups are also called '
-         'directly on gapped frames.',
+         'directly on gapped frames. Columns of large (1e5..1e12, neighbours one unit apart) and tiny magnitude take part in '
+         'count / scale / remove / split / panel.',
     note='Trusts vlib.refsem (C01 tolerance), pandas/numpy for oracle bookkeeping and labels as row identity; formulas carry no '
          'shared sub-trees; identifier/panel columns are never scaled; a documented refusal ends a history; sample distributions '
          'and fold sizes are not tested; tables hold at most 32 rows. Four defects found were repaired (fix: commits).',
@@ -177,7 +189,8 @@ CHECKS.append(dict(
          '644 (alias, receiver) pairs, 31 keyword renamings on 353 pairs; a new alias is covered automatically) and compared with '
          'the replacement named in its warning on identically built receivers and arguments: result or exception, state of receiver '
          'and arguments, files written, exactly one extra DeprecationWarning, and the purpose rule for the declared target (same '
-         'normalised name / "Same as X" docstring). Each quick run sweeps every receiver class 32 times per alias.',
+         'normalised name / "Same as X" docstring). Renamed keywords are called with values unlike the default and the whole '
+         'resulting configuration is compared. Each quick run sweeps every receiver class 32 times per alias.',
     note='Trusts the markers and closure left by biogeme/deprecated.py; arguments come from per-signature generators; engine '
          'refusals (RuntimeError or process death) are one equivalence class; differences must reproduce on separately forked '
          'processes; floats to 1e-10, timestamps and ids normalised; retargeting is visible only through the name/docstring purpose '
@@ -206,7 +219,8 @@ CHECKS.append(dict(
          'its scaled variant that sum over the sample size, for thread counts {1, 2, k <= N, N, N+1..3, 0} with three repeated '
          'evaluations each, after a random row permutation, and as the sum over a random partition into 2-4 parts each given to '
          'its own BIOGEME object; gradient, Hessian and BHHH (scaled and unscaled) must be the weighted sums of the '
-         'per-observation derivatives of the same formula.',
+         'per-observation derivatives of the same formula. Simulated likelihoods (Monte-Carlo, native draw types): likelihood == '
+         'sum of weight x simulate rows of the same object, unchanged by simulate() before or after, equal for every thread count.',
     note='Thread interleavings inside the engine are not controllable from Python: the thread count is explored as a configuration '
          'and every evaluation is repeated. Per-observation derivatives come from the same engine, so only aggregation is judged. '
          'BHHH convention sum_n w_n g_n g_n^T. Formulas carry no shared sub-trees (engine aliasing finding of C02).',
@@ -255,7 +269,8 @@ CHECKS.append(dict(
          'into one contiguous block per id, the table keeps its rows, the sample size is the number of individuals, the trajectory '
          'value per individual is the product of the reference row values over exactly its rows (averaged over the individual\'s '
          'own draws), calculate_likelihood is the sum over individuals (scaled: divided by their number), simulate has one row per '
-         'individual, and everything is invariant when blocks and rows inside blocks are permuted.',
+         'individual, and everything is invariant when blocks and rows inside blocks are permuted; the table may be edited with '
+         'pandas after panel(), and the draw variables may have been used per observation before panel().',
     note='Rows of an individual are identified by reading Database.data back after panel(); draws are affine functions of '
          '(individual position, draw index); a draw variable inside a logit availability is a listed known finding.',
     technique='property-based testing (Hypothesis): reference product/average oracle per individual, permutation metamorphic relation, refusal of interleaved ids',
